@@ -546,6 +546,36 @@ def gen_C04(rng, tier):
 
 
 
+def failed_setter_then_read(rng, tier, reader):
+    """a live point is the receiver of a decoding / import that fails; the point must still read as before"""
+    pr = Prog(rng)
+    for _ in range(scale(tier, 4, 20)):
+        q = rand_point(rng)
+        a = point_in(pr, rng, q)
+        pr.emit(reader, a, pr.fresh("o"))
+        # a rejected import: the point's own coordinates with Z (or T) alone rescaled
+        X, Y, Z, T = (pr.fresh("c") for _ in range(4))
+        pr.emit("P.ExtendedCoordinates", a, X, Y, Z, T)
+        k = pr.elem(rng.choice([2, 3, P - 1, rng.randrange(2, P)]))
+        tgt = rng.choice([Z, T, X, Y])
+        pr.emit("E.Multiply", tgt, tgt, k)
+        pr.emit("P.SetExtendedCoordinates", a, X, Y, Z, T)
+        pr.emit(reader, a, pr.fresh("o"))
+        # a rejected decoding: a y with no x on the curve, and a wrong length
+        bad = None
+        while bad is None:
+            cand = rng.randbytes(32)
+            if spec.decode_point(cand) is None:
+                bad = cand
+        pr.emit("P.SetBytes", a, pr.bytes_(bad))
+        pr.emit(reader, a, pr.fresh("o"))
+        pr.emit("P.SetBytes", a, pr.bytes_(rng.randbytes(rng.choice([0, 31, 33, 64]))))
+        pr.emit(reader, a, pr.fresh("o"))
+        pr.emit("P.show", a)
+    pr.tag("failed setters on a live receiver, then read it")
+    return [pr]
+
+
 def export_then_compute(rng, tier, readers):
     """a caller reads a point's coordinates and computes with them IN PLACE (the field API reuses receivers), then goes on using
     the point: the exported elements must be the caller's own copies"""
@@ -573,7 +603,7 @@ def export_then_compute(rng, tier, readers):
 
 
 def gen_C05(rng, tier):
-    cases = export_then_compute(rng, tier, ["P.Bytes"])
+    cases = export_then_compute(rng, tier, ["P.Bytes"]) + failed_setter_then_read(rng, tier, "P.Bytes")
     for _ in range(scale(tier, 10, 150)):
         pr = Prog(rng)
         q = rand_point(rng)
@@ -814,8 +844,42 @@ def gen_C08(rng, tier):
 FE_OPS = ["E.Add", "E.Subtract", "E.Multiply", "E.Negate", "E.Square", "E.Mult32", "E.Absolute", "E.Set"]
 
 
+
+def carry_into_saturated(rng, tier):
+    """two-step public sequences whose result has a limb equal to 2^51 exactly, or a carry that lands on a saturated limb:
+    x = 2^255 - 2^(51k) + low (canonical, below p), then x + 2^(51k); sign, absolute value, encoding and equality of the result"""
+    pr = Prog(rng)
+    for k in (1, 2, 3, 4):
+        for low in ([0, 1, 2**51 - 20, rng.randrange(2**51 - 19)] if tier != "thorough" else [0, 1, 2, 2**51 - 20, 2**51 - 21] + [rng.randrange(2**51 - 19) for _ in range(6)]):
+            xv = 2**255 - 2**(51 * k) + low
+            if xv >= P:
+                continue
+            x = pr.elem(0)
+            pr.emit("E.SetBytes", x, pr.bytes_(le32(xv)))
+            y = pr.elem(0)
+            pr.emit("E.SetBytes", y, pr.bytes_(le32(2**(51 * k))))
+            z = pr.elem(0)
+            pr.emit("E.Add", z, x, y)
+            pr.emit("E.IsNegative", z)
+            a = pr.elem(0)
+            pr.emit("E.Absolute", a, z)
+            pr.emit("E.Bytes", a, pr.fresh("o"))
+            pr.emit("E.Bytes", z, pr.fresh("o"))
+            c = pr.elem((xv + 2**(51 * k)) % P)
+            pr.emit("E.Equal", z, c)
+            n = pr.elem(0)
+            pr.emit("E.Negate", n, z)
+            pr.emit("E.IsNegative", n)
+            w = pr.elem(0)
+            pr.emit("E.Subtract", w, z, y)      # back to x through a borrow
+            pr.emit("E.Equal", w, x)
+            pr.emit("E.IsNegative", w)
+    pr.tag("carry into saturated limbs (limb = 2^51 after one carry pass)")
+    return [pr]
+
+
 def gen_C09(rng, tier):
-    cases = gen_C09_sparse(rng, tier)
+    cases = gen_C09_sparse(rng, tier) + carry_into_saturated(rng, tier)
     for ci in range(scale(tier, 20, 300)):
         pr = Prog(rng)
         es = [pr.elem(limbs=rand_limbs(rng)) for _ in range(3)] + [pr.elem(rand_fe(rng)) for _ in range(2)]
@@ -886,7 +950,7 @@ def gen_C09_sparse(rng, tier):
 
 
 def gen_C10(rng, tier):
-    cases = []
+    cases = carry_into_saturated(rng, tier)
     pr = Prog(rng)
     v = pr.elem(0)
     for n in [P - 1, P, P + 1, P + 18, 2**255 - 1, 2**255 - 20, 0, 1, 2**255, 2**256 - 1, 2**255 + 5, P + 19 + 2**255 - 2**255]:
@@ -1115,6 +1179,33 @@ POINT_OPS = ["P.Add", "P.Subtract", "P.Negate", "P.MultByCofactor", "P.Set", "P.
 
 def gen_C12(rng, tier):
     cases = []
+    # results that are the identity for degenerate reasons: no terms, all scalars zero, the zero scalar with every routine, small-order
+    # points times their order - and then used as an operand (an accumulator that was never written shows as an uninitialized Point)
+    pr = Prog(rng)
+    z0 = pr.scalar(0)
+    sl = pr.scalar(L - 1)
+    g = point_in(pr, rng)
+    t8 = point_in(pr, rng, rng.choice([t for t in torsion() if t != spec.IDENT]))
+    e8 = pr.scalar(8)
+    calls = []
+    for op in ("P.MultiScalarMult", "P.VarTimeMultiScalarMult"):
+        calls += [(op, 0, 0), (op, 1, 1, z0, g), (op, 2, 2, z0, z0, g, t8), (op, 3, 3, z0, z0, z0, g, g, g), (op, 1, 1, e8, t8)]
+    calls += [("P.ScalarMult", z0, g), ("P.ScalarBaseMult", z0), ("P.VarTimeDoubleScalarBaseMult", z0, g, z0), ("P.ScalarMult", e8, t8),
+              ("P.VarTimeDoubleScalarBaseMult", e8, t8, z0)]
+    for c in calls:
+        for recv in ("zero", "used"):
+            v = pr.point_zero() if recv == "zero" else point_in(pr, rng)
+            if c[0] in ("P.MultiScalarMult", "P.VarTimeMultiScalarMult"):
+                pr.emit(c[0], v, c[1], c[2], *c[3:])
+            else:
+                pr.emit(c[0], v, *c[1:])
+            pr.emit("P.show", v)
+            pr.emit("P.Bytes", v, pr.fresh("o"))
+            w = pr.point_zero()
+            pr.emit("P.Add", w, v, g)
+            pr.emit("P.Equal", w, g)
+    pr.tag("degenerate identity results used as operands")
+    cases.append(pr)
     for _ in range(scale(tier, 6, 40)):
         pr = Prog(rng)
         pts = [point_in(pr, rng) for _ in range(3)] + [pr.point_zero(), pr.point_zero()]
@@ -1361,6 +1452,14 @@ def gen_C15(rng, tier):
             qs[k] = z
             for op in ("P.MultiScalarMult", "P.VarTimeMultiScalarMult"):
                 pr.emit(op, v, 70, 70, *manys, *qs)
+        # very large batches (an implementation may switch algorithm by batch size; the guard must not depend on it)
+        if _ == 0:
+            for nbig in ((300, 520, 1030) if tier != "thorough" else (129, 256, 300, 512, 520, 700, 1030, 2050)):
+                k = rng.choice([0, nbig // 2, nbig - 1])
+                qs = [g] * nbig
+                qs[k] = z
+                for op in ("P.MultiScalarMult", "P.VarTimeMultiScalarMult"):
+                    pr.emit(op, v, nbig, nbig, *([s] * nbig), *qs)
         s0 = pr.scalar(0)
         pr.emit("P.ScalarMult", v, s0, z)
         pr.emit("P.VarTimeDoubleScalarBaseMult", v, s0, z, s)
@@ -1442,7 +1541,7 @@ def gen_C16(rng, tier):
 
 
 def gen_C17(rng, tier):
-    cases = export_then_compute(rng, tier, ["P.BytesMontgomery"])
+    cases = export_then_compute(rng, tier, ["P.BytesMontgomery"]) + failed_setter_then_read(rng, tier, "P.BytesMontgomery")
     for _ in range(scale(tier, 8, 100)):
         pr = Prog(rng)
         q = rand_point(rng)
@@ -1535,6 +1634,39 @@ def gen_C19(rng, tier):
         X2, Y2, Z2, T2 = (pr.fresh("c") for _ in range(4))
         pr.emit("P.ExtendedCoordinates", p, X2, Y2, Z2, T2)
         pr.emit("E.show", X)
+        # decoders and setters are pure functions of their input: decode, modify the result IN PLACE (any writer), decode the same
+        # bytes again into another receiver with nothing else decoded in between (a one-entry cache keyed on the input would hit)
+        encq = spec.encode_point(rand_point(rng))
+        d1 = pr.point_zero()
+        bq = pr.bytes_(encq)
+        pr.emit("P.SetBytes", d1, bq)
+        w = rng.choice(["add", "ident", "neg", "limbs"])
+        if w == "add":
+            pr.emit("P.Add", d1, d1, p)
+        elif w == "ident":
+            pr.emit("P.NewIdentity", d1)
+        elif w == "neg":
+            pr.emit("P.Negate", d1, d1)
+        else:
+            pr.emit("P.limbs", d1, *[rng.randrange(2**51) for _ in range(20)])
+        d2 = pr.point_zero()
+        pr.emit("P.SetBytes", d2, pr.bytes_(encq))
+        pr.emit("P.Bytes", d2, pr.fresh("o"))
+        pr.emit("P.show", d2)
+        sb = le32(rand_scalar(rng))
+        s1, s2 = pr.scalar(None), pr.scalar(None)
+        pr.emit("S.SetCanonicalBytes", s1, pr.bytes_(sb))
+        pr.emit("S.Add", s1, s1, s)
+        pr.emit("S.SetCanonicalBytes", s2, pr.bytes_(sb))
+        pr.emit("S.Bytes", s2, pr.fresh("o"))
+        # multi-scalar calls must leave the caller's slices alone: a zero scalar in the middle, then the same slices again
+        zs = pr.scalar(0)
+        q1, q2, q3 = point_in(pr, rng), point_in(pr, rng), point_in(pr, rng)
+        for op in ("P.VarTimeMultiScalarMult", "P.MultiScalarMult"):
+            r1, r2 = pr.point_zero(), pr.point_zero()
+            pr.emit(op, r1, 3, 3, s, zs, s, q1, q2, q3)
+            pr.emit(op, r2, 3, 3, s, zs, s, q1, q2, q3)
+            pr.emit("P.Equal", r1, r2)
         # purity: the same operation repeated after unrelated work gives the same answer
         q = point_in(pr, rng)
         v1, v2 = pr.point_zero(), pr.point_zero()
